@@ -175,6 +175,26 @@ func (P *Program) funcKey(fn *ssa.Function) string {
 
 // lookupFunc finds a function by contract key "pkg.Func" or "pkg.Recv.Method".
 func (P *Program) lookupFunc(key string) *ssa.Function {
+	if i := strings.Index(key, "$"); i > 0 {
+		// closure: <parent key>$<n>[$<m>...]
+		parent := P.lookupFunc(key[:i])
+		if parent == nil {
+			return nil
+		}
+		var find func(f *ssa.Function) *ssa.Function
+		find = func(f *ssa.Function) *ssa.Function {
+			for _, a := range f.AnonFuncs {
+				if P.funcKey(a) == key {
+					return a
+				}
+				if r := find(a); r != nil {
+					return r
+				}
+			}
+			return nil
+		}
+		return find(parent)
+	}
 	parts := strings.Split(key, ".")
 	sp := P.SSA[parts[0]]
 	if sp == nil {
